@@ -129,8 +129,9 @@ def run_tlc(d, module, workers=8, timeout=1800, extra=(), simulate=None, heap="1
         if simulate and p.returncode == 0:
             pass
         else:
-            raise Infra("TLC failed on %s (exit %d) -- model-level failure or tool error, not a verdict on the code:\n%s"
-                        % (module, p.returncode, out[-6000:]))
+            heads = " | ".join(sorted(set(re.findall(r"Error: [^\n]*", out)))[:6])
+            raise Infra("TLC failed on %s (exit %d) -- model-level failure or tool error, not a verdict on the code: %s\n%s"
+                        % (module, p.returncode, heads, out[-6000:]))
     gen, dist = (int(m.group(1)), int(m.group(2))) if m else (0, 0)
     return gen, dist, out
 
